@@ -1,29 +1,49 @@
 """C05 — detailed placement never worsens wirelength."""
+# Properties/C05.lean consumes C09's theorems (incr_init, incr_inv, detailed_value_is_hpwl), whose closure contains the
+# orientation tables regenerated from the C++ source
+GEN = ["OrientTables"]
 VARIANT = "san"
 RULE = "see stats"
 PARTIAL = [
     "KNOWN FINDING KF-C05-1 (open): the statement is false on the tree — HPWL can rise when a move re-orients a "
-    "SAME/OPPOSITE cell, because IncrNetModel freezes pin offsets; proved as `hpwl_can_increase` on a concrete witness and "
-    "classified in the harness (previous-orientation / stale-offset recomputation); every other increase is a violation",
-    "`hpwl_monotone_partial` covers histories of swap/insert/reorder moves accepted by the modelled acceptance rule for a "
-    "value that depends on the cell positions only (what IncrNetModel computes); that this value equals Circuit::hpwl() "
-    "while no orientation differs from the one at construction is C09's theorem, not re-proved here",
-    "shift passes: optimality (hence value' <= value) of lemon NetworkSimplex is assumed, not proved; the theorem takes "
-    "value' <= value of each shift as a hypothesis; on explored runs the direct oracle checks Circuit::hpwl() at every callback",
-    "that the optimiser's loops (runSwaps*, runShifts*, runReordering*) only perform the modelled primitive moves is tied by "
-    "the hook-H3 history replay on explored runs (when the hook is compiled in), not proved for all inputs",
+    "SAME/OPPOSITE cell, because IncrNetModel freezes pin offsets; proved as `hpwl_can_increase` (and, on the whole placer object with the maintained value(), `hpwl_can_increase_on_object`: bestInsert accepts the move, value() 10->8, hpwl 10->14) on a concrete witness, kept as "
+    "`hpwl_monotone_full_statement` (a statement, not a theorem) and classified in the harness (previous-orientation / "
+    "stale-offset recomputation); every other increase is a violation",
+    "`hpwl_monotone_orient_kept` (alias `hpwl_monotone_partial`) is the proved part: along any history of moves accepted by the modelled rules for the REAL "
+    "objective (circuitValue c = what DetailedPlacer::value()/valueOnSwap/valueOnInsert compute, by `placer_in_sync` and "
+    "`optimiser_evaluates_circuit_value`), if the export of every state has the orientations the incremental models were built "
+    "with, Circuit.hpwl of the export never increases and the first one is the legalized circuit's. It assumes `Inv s0` for "
+    "the constructed placement (C02's inv_init, proved there only as `check() = true`; checked by `decide` in the example and "
+    "by the C02 streams on explored runs)",
+    "shift passes: optimality (hence value' <= value) of lemon NetworkSimplex is assumed, not proved: `Accepted.shift` carries "
+    "value' <= value as a premise; the harness checks it on every logged shift of every explored run (shift_samples)",
+    "RowReordering: the enumeration (runRegionChoice/runOrdering/next_permutation) is not modelled; `Accepted.reorder` takes the "
+    "list of evaluated leaves as given, each with the value runOrdering reads at it (`FaithfulLeaf`: the objective with the "
+    "registered cells at the leaf's positions), and models keep-best + write-back. Proved: whatever positions the enumeration "
+    "left in the two incremental models (`Placer.dirty`), writeback re-synchronises them, and without a better leaf the object "
+    "is equal to the one before the pass (`reorder_pass_from_dirty_models`). Not proved: that the C++ enumeration only "
+    "evaluates leaves of that form — tied by the `val` line that follows every replayed reorder on explored runs",
+    "that the optimiser's loops (runSwaps*, runShifts*, runReordering*) only perform the modelled primitive moves with "
+    "candidates chosen by the modelled scan is tied by the hook-H3 history replay on explored runs (when the hook is compiled "
+    "in), not proved for all inputs",
 ]
 ASSUMPTIONS = [
-    "lemon::NetworkSimplex returns optimal potentials (shift passes)",
-    "IncrNetModel::value() is a function of the current cell positions only (C09 ties it to Circuit::hpwl under frozen orientations)",
+    "lemon::NetworkSimplex returns optimal potentials (shift passes); checked per logged shift by the harness",
+    "the DetailedPlacement constructed from a legalized circuit satisfies Inv (C02 inv_init; `check()` passes is proved)",
     "C++ int/long long arithmetic modelled as unbounded Int",
 ]
-LEVEL_TEXT = ("Lean 4 theorems over the executable DetPlace model: positions after swap/insert are exactly the ones the optimiser "
-              "evaluated (positionsOnSwap/positionOnInsert), so a move accepted by bestSwap/bestInsert/bestSwapUpdate strictly "
-              "decreases any position-only value; RowReordering writes back only a strictly better evaluated leaf and otherwise "
-              "leaves the placement untouched; monotonicity along histories follows (partial: orientation-changing moves are the "
-              "known finding KF-C05-1, shifts assume NetworkSimplex optimality).  Direct oracle on the real code: Circuit::hpwl() "
-              "at successive Detailed callbacks and on return, all parameter sets, with the KF classifier")
-LEVEL_NOTE = ("Trusted: Lean kernel; the hand-written model tied to the C++ by the C02 primitives stream and the H3 history replay; "
-              "lemon NetworkSimplex; the harness' classifier for KF-C05-1.")
-TECHNIQUE = "Lean 4 proof over the move model + end-to-end HPWL oracle with known-finding classifier + history replay"
+LEVEL_TEXT = ("Lean 4 theorems over the executable model of the whole DetailedPlacer object (DetPlace placement + the two C09 "
+              "IncrNetModels, glued by updateCellPos as doSwap/doInsert/runShiftsOnCells/writeback do): after any move history both "
+              "models are consistent and value() is a position-only function of the placement (`placer_in_sync`); valueOnSwap/"
+              "valueOnInsert evaluate it at the candidate positions and restore the object exactly "
+              "(`optimiser_evaluates_circuit_value`); RowReordering::writeback repairs the models its enumeration dirtied (`reorder_pass_from_dirty_models`); value() = Circuit.hpwl of the export while no orientation differs from "
+              "construction (`value_eq_hpwl_if_orient_kept`, from C09 incr_init/incr_inv/detailed_value_is_hpwl); moves accepted by "
+              "bestSwap/bestInsert/bestSwapUpdate strictly decrease it, RowReordering writes back only a strictly better leaf; hence "
+              "HPWL is non-increasing along accepted histories that keep orientations (`hpwl_monotone_orient_kept`; partial: "
+              "orientation-changing moves are the known finding KF-C05-1, shifts assume NetworkSimplex optimality).  Correspondence: "
+              "H3 history replay on that model with value()/hpwl()/orientation flag compared at every primitive move and callback.  "
+              "Direct oracles on the real code: Circuit::hpwl() at successive Detailed callbacks and on return with the KF "
+              "classifier; DetailedPlacer::value() == Circuit::hpwl() whenever no orientation changed; no shift increases value()")
+LEVEL_NOTE = ("Trusted: Lean kernel; the hand-written models tied to the C++ by the C02 primitives stream, the C09 IncrNetModel stream "
+              "and the H3 history replay with per-step value/hpwl comparison; lemon NetworkSimplex; the harness' classifier for KF-C05-1.")
+TECHNIQUE = "Lean 4 proof over the placer-object model (placement + incremental nets) + end-to-end HPWL/value oracles with known-finding classifier + history replay"
